@@ -590,7 +590,12 @@ func (cs *ContractSet) ParseContractFile(path, pkg string, trusted bool) error {
 			case "attr":
 				fs := strings.SplitN(rest, " ", 2)
 				if len(fs) == 2 {
-					cur.Attrs[fs[0]] = strings.TrimSpace(fs[1])
+					// a repeated list attribute accumulates (`attr cancellable @C03 a` + `attr cancellable @C14 b`)
+					if old, ok := cur.Attrs[fs[0]]; ok && old != "true" {
+						cur.Attrs[fs[0]] = old + " " + strings.TrimSpace(fs[1])
+					} else {
+						cur.Attrs[fs[0]] = strings.TrimSpace(fs[1])
+					}
 				} else {
 					cur.Attrs[fs[0]] = "true"
 				}
